@@ -105,6 +105,66 @@ def translate_enc_init(tree):
             "    do varnames <- %s;\n    do constants <- %s;\n    OK (mkEnc fromargs_empty varnames fromargs_empty constants).\n" % (seed_t, doc_t))
 
 
+def translate_dec_init(tree):
+    """the prologue of bytes_to_blocks: the four ToArgs tables (varnames with the parameters preset as found) and the docstring
+    marked as found at index 0"""
+    f = next((n for n in tree.body if isinstance(n, ast.FunctionDef) and n.name == "bytes_to_blocks"), None)
+    if f is None or f.decorator_list or [a.arg for a in f.args.args] != ["b", "line_mapping", "names", "varnames", "freevars", "cellvars", "constants",
+                                                                         "block_type", "args"]:
+        raise Decline("bytes_to_blocks")
+    body = strip(f.body)
+    preset = {}
+    doc = None
+    for s in body:
+        if isinstance(s, ast.For):
+            if not same(s.iter, "_parse_bytes(b)"):
+                raise Decline("first loop of bytes_to_blocks")
+            break
+        if isinstance(s, ast.AnnAssign) and isinstance(s.target, ast.Name) and s.target.id == "offsets_and_instruction" and isinstance(s.value, ast.List) and not s.value.elts:
+            continue
+        if same(s, "targets_set = {0}", "exec"):
+            continue
+        if isinstance(s, ast.Assign) and len(s.targets) == 1 and isinstance(s.targets[0], ast.Name) and s.targets[0].id.startswith("found_") \
+                and isinstance(s.value, ast.Call) and isinstance(s.value.func, ast.Name) and s.value.func.id == "ToArgs":
+            tbl = s.targets[0].id[len("found_"):]
+            c = s.value
+            if tbl not in ("names", "varnames", "cellvars", "constants") or tbl in preset or doc or not c.args \
+                    or not (isinstance(c.args[0], ast.Name) and c.args[0].id == tbl):
+                raise Decline("table " + tbl)
+            kws = {k.arg: k.value for k in c.keywords}
+            if tbl == "constants":
+                if not (set(kws) == {"_hash_fn"} and same(kws["_hash_fn"], "constant_key")):
+                    raise Decline("key function of the constants")
+            elif kws:
+                raise Decline("keywords of ToArgs")
+            if len(c.args) == 1:
+                preset[tbl] = "0"
+            elif len(c.args) == 2 and same(c.args[1], "{i: i for i in range(len(args.parameters))}"):
+                preset[tbl] = "(args_len a)"
+            else:
+                raise Decline("preset of " + tbl)
+        elif isinstance(s, ast.If) and not s.orelse and isinstance(s.test, ast.BoolOp) and isinstance(s.test.op, ast.And) and len(s.test.values) == 2 \
+                and same(s.test.values[0], "isinstance(block_type, Function)") and len(strip(s.body)) == 1 \
+                and same(strip(s.body)[0], "found_constants.found_index(0)", "exec") and len(preset) == 4:
+            t = s.test.values[1]
+            if same(t, "block_type.docstring is not None"):
+                doc = "Some _ => true | None => false"
+            elif same(t, "block_type.docstring"):
+                doc = "Some (_ :: _) => true | _ => false"
+            else:
+                raise Decline("docstring test of bytes_to_blocks")
+        else:
+            raise Decline("statement of the prologue of bytes_to_blocks: " + ast.dump(s)[:60])
+    if len(preset) != 4:
+        raise Decline("tables of bytes_to_blocks")
+    cond = "(match block_type with Some f => match fn_doc f with %s end | None => false end)" % doc if doc else "false"
+    return ("  Definition dec_init (names varnames cellvars : list str) (constants : list C) (block_type : option function) (a : args) : res (decstate C) :=\n"
+            "    let st0 := mkDec (toargs_init names %s) (toargs_init varnames %s) (toargs_init cellvars %s) (toargs_init constants %s) in\n"
+            "    if %s then match PCD.Gen.SrcTables.found_index keq (d_consts st0) 0 with\n"
+            "      | OK (_, _, t) => OK (mkDec (d_names st0) (d_varnames st0) (d_cellvars st0) t) | Err e => Err e end\n    else OK st0.\n"
+            % (preset["names"], preset["varnames"], preset["cellvars"], preset["constants"], cond))
+
+
 def translate_b2c(tree):
     f = next((n for n in tree.body if isinstance(n, ast.FunctionDef) and n.name == "blocks_to_constants"), None)
     if f is None or f.decorator_list or [a.arg for a in f.args.args] != ["blocks", "additional_args", "block_type"]:
@@ -142,7 +202,7 @@ def translate_b2c(tree):
             "  Definition blocks_to_constants (blocks : list (list (instr_ C))) (additional_args : list (arg_ C)) (block_type : option function) : res (list C) :=\n"
             "    let step := fun (a : arg_ C) (st : encstate C) => match a with AConst _ _ => do r <- PCD.Gen.SrcFromArg.from_arg keq is_str none_c a block_type [] st; OK (snd r) | _ => OK st end in\n"
             "    do constants <- %s;\n    let st := mkEnc (@fromargs_empty str) (@fromargs_empty str) (@fromargs_empty str) constants in\n    %s.\n" % (doc, text)
-            + translate_enc_init(tree) + "End B2C.\n")
+            + translate_enc_init(tree) + translate_dec_init(tree) + "End B2C.\n")
 
 
 def translate_iter(tree):
@@ -181,7 +241,7 @@ def translate_iter(tree):
 
 HEADER = ("(* generated by harness/translate_iter.py from /repo/code_data/_blocks.py and __init__.py on every run; do not edit *)\n"
           "From PCD Require Import Base.PyBase Base.PyImp Base.Cfg Model.Flags Model.Args Model.Data Model.Consts Model.LineTable Model.Blocks Model.CodeData.\n"
-          "From PCD Require Gen.SrcFromArg.\nOpen Scope Z_scope.\n\n")
+          "From PCD Require Gen.SrcFromArg Gen.SrcTables.\nOpen Scope Z_scope.\n\n")
 
 
 def generate(repo, outpath, fallback_dir, write_fallback=False):
